@@ -870,6 +870,11 @@ Theorem display_stmt_single_line_partial : forall E s,
   Forall (fun c => 32 <= c) (display_stmt E s) /\ ~ In 10 (display_stmt E s) /\ ~ In 13 (display_stmt E s).
 Proof. intros E s H. pose proof (clean_display_stmt E s H) as Hc. split; [exact Hc|exact (clean_no_newline _ Hc)]. Qed.
 
+(* the same with the executable form of the hypothesis (stream C20d evaluates it on every parsed file: code 71) *)
+Theorem display_stmt_single_line_checked_partial : forall E s,
+  stmt_names_cleanb s = true -> ~ In 10 (display_stmt E s) /\ ~ In 13 (display_stmt E s).
+Proof. intros E s H. exact (clean_no_newline _ (clean_display_stmt E s (stmt_names_cleanb_spec s H))). Qed.
+
 (* the string constant below contains LF, CR, NUL, a quote and a backslash: the text of the statement is one line;
    the hypothesis about identifiers is needed: a (non-parseable) variable name with a line break is printed as is *)
 Example display_stmt_single_line_nonvacuous :
